@@ -12,6 +12,7 @@ pub struct Reg {
     pub z_live: i64,
     pub z_drops: i64,
     pub z_clones: i64,
+    pub nd_clones: i64,
     pub clone_fault: Option<u32>,
     pub drop_fault: Option<u32>,
     pub closure_fault: Option<u32>,
@@ -32,6 +33,25 @@ pub fn born() -> u64 {
         r.state.insert(id, 1);
         id
     })
+}
+
+/// Clone::clone of a component without identity (no drop glue): counted, and a fault point like any other.
+pub fn nd_cloned() {
+    let fire = with(|r| match r.clone_fault {
+        Some(0) => {
+            r.clone_fault = None;
+            true
+        }
+        Some(k) => {
+            r.clone_fault = Some(k - 1);
+            false
+        }
+        None => false,
+    });
+    if fire && !std::thread::panicking() {
+        panic!("injected clone fault");
+    }
+    with(|r| r.nd_clones += 1);
 }
 
 /// Called from Clone::clone. May panic (injected fault) before creating the clone.
@@ -152,7 +172,7 @@ pub fn clear_faults() {
 
 /// Run `f` without leaving a trace in the accounting (scratch worlds used to forge handles).
 pub fn scoped<R>(f: impl FnOnce() -> R) -> R {
-    let (nd, nc, zl, zd, zc) = with(|r| (r.drops.len(), r.clones.len(), r.z_live, r.z_drops, r.z_clones));
+    let (nd, nc, zl, zd, zc, ndc) = with(|r| (r.drops.len(), r.clones.len(), r.z_live, r.z_drops, r.z_clones, r.nd_clones));
     let out = f();
     with(|r| {
         r.drops.truncate(nd);
@@ -160,6 +180,7 @@ pub fn scoped<R>(f: impl FnOnce() -> R) -> R {
         r.z_live = zl;
         r.z_drops = zd;
         r.z_clones = zc;
+        r.nd_clones = ndc;
     });
     out
 }
